@@ -103,6 +103,9 @@ type DeclSpec struct {
 	Namespace      string       `json:"namespace,omitempty"`     // set on the parser itself
 	EnvNamespace   string       `json:"env_namespace,omitempty"` // set on the parser itself
 	Reenter        bool         `json:"reenter,omitempty"`       // Execute / handler / callbacks call back into the parser (WriteHelp)
+	// LateGroups: top-level groups (by name) that the program adds with AddGroup
+	// only later, when the history reaches an "addgroup" operation.
+	LateGroups []string `json:"late_groups,omitempty"`
 }
 
 // V is a kind-independent value: scalars as text, containers as lists.
@@ -573,6 +576,7 @@ type Built struct {
 	Cmds       []*BuiltCmd
 	Err        error // declaration rejected by the library
 	KeptIni    *flags.IniParser
+	lateAdds   []func() error
 }
 
 func nsDelim(d *DeclSpec) string {
@@ -608,7 +612,7 @@ func (b *Built) bindGroup(g *GroupSpec, v reflect.Value, c walkCtx, gpath string
 	hidden := c.hidden || g.Hidden
 	section := strings.Join(c.cmdPath, ".")
 	if !c.ownGroup {
-		if section != "" {
+		if section != "" && g.Name != "" {
 			section += "."
 		}
 		section += g.Name
@@ -714,14 +718,29 @@ func Build(spec *DeclSpec) (b *Built) {
 	p.ShortDescription = spec.ShortDesc
 	p.LongDescription = spec.LongDesc
 	for _, g := range spec.Groups {
+		g := g
 		rv := reflect.New(groupType(g))
 		b.bindGroup(g, rv.Elem(), walkCtx{b: b}, g.Name)
-		fg, err := p.AddGroup(g.Name, g.Long, rv.Interface())
-		if err != nil {
+		add := func() error {
+			fg, err := p.AddGroup(g.Name, g.Long, rv.Interface())
+			if err != nil {
+				return err
+			}
+			applyGroupAttrs(fg, g)
+			return nil
+		}
+		late := false
+		for _, n := range spec.LateGroups {
+			late = late || n == g.Name
+		}
+		if late {
+			b.lateAdds = append(b.lateAdds, add)
+			continue
+		}
+		if err := add(); err != nil {
 			b.Err = err
 			return b
 		}
-		applyGroupAttrs(fg, g)
 	}
 	if err := b.finishTagCmds(p.Command, topTag, nil, false); err != nil {
 		b.Err = err
